@@ -26,6 +26,17 @@ claim("C02", "proof",
       "Trusted: CPython ast, Python int comparison semantics, sa.core call resolution. Assumes lengths are ints >= 1.",
       "DESIGN.md 4/C02")
 
+claim("C15", "proof",
+      "symbolic evaluation of the pattern DSL + abstract interpretation of predicate classes + exhaustive product exploration (DFA state x depth class x token class)",
+      "Every header and follow-up expression literal in codelimit/languages/*.py is extracted, its subset DFA built in "
+      "the checker's model, and every reachable (state, balanced-depth class) configuration is crossed with every token "
+      "class (kind x distinguished value); predicate semantics and the selection rule of Pattern.consume come from the "
+      "repo's source on every run. The space is finite and enumerated completely (quick: depth classes 0,1,>=2; "
+      "thorough additionally 0,1,2,>=3).",
+      "Trusted: pygments kind sub-trees are disjoint; the engine's construction has Thompson/subset shape (C13-R1/R3); "
+      "CPython ast. Two equal stateful atoms in one expression are not modelled (ANALYSIS-ERROR, reported by C06).",
+      "DESIGN.md 4/C15")
+
 NOT_IMPLEMENTED_YET = "check under construction in this session (see DESIGN.md section 4 for the planned rules)"
 
 
